@@ -1,7 +1,34 @@
 """C16 case generator: fallible APIs with the boundary alphabet {0,1,len-1,len,len+1,2^63-1,
 2^63,2^64-2,2^64-1} in every usize position (case language: coq/theories/Run/RunC16.v)."""
 import itertools
+from tools import vlib, gen_arith
 from tools.vlib import sx, MAXU
+
+TRUSTED = [
+    "tools/gen_arith.py (mini-Rust -> Gallina translator: tokenizer, recursive-descent parser and the translation "
+    "scheme of notes/GEN.md; a function outside its subset is not emitted, which breaks the lemma that names it)",
+]
+
+
+def pre_proof(cov):
+    """Regenerates coq/theories/Gen/Arith.v (+ ArithNumeric.v) from <REPO>'s Rust source, so that
+    Proofs/GenArithP.v re-proves `generated = hand-written model` about the code as it is NOW."""
+    global _GEN_FAILURE
+    st, _GEN_FAILURE = gen_arith.regenerate_and_prove(["theories/Proofs/GenArithP.vo", "theories/Proofs/GenArithViewsP.vo"])
+    cov["translator"] = {k: st[k] for k in ("repo", "targets", "definitions", "not_translated", "changed") if k in st}
+    cov["translator"]["equivalence_proofs"] = "fail" if _GEN_FAILURE else "ok"
+
+
+_GEN_FAILURE = None
+
+
+def extra(tier, seed, cov):
+    """the verdict of the generated-equals-model proofs, taken under the build lock in pre_proof
+    (the proof layer reports the same failure unless a concurrent run replaced the Gen files)"""
+    if _GEN_FAILURE:
+        return [("generated-equivalence", {"property": "C16", "kind": "proof layer: a definition regenerated from the Rust source "
+                                           "no longer equals the hand-written model function", "repo": vlib.REPO, **_GEN_FAILURE})]
+    return []
 
 FOREIGN = 9
 
@@ -30,8 +57,201 @@ def probes_for(lens, rng, n=10):
     return out
 
 
+# ---- op 12: every view adaptor as the receiver of the checked getters (C02's term language) ----
+GEN_ALPHABET = [0, 1, 2, 3, 4, 2 ** 63 - 1, 2 ** 63, MAXU - 1, MAXU]   # covers 0,1,len-1,len,len+1 for len <= 3
+
+
+class V:
+    """a view term together with the shape it should have (names, lens)"""
+    def __init__(self, term, names, lens):
+        self.term, self.names, self.lens = term, list(names), list(lens)
+
+    @property
+    def D(self):
+        return len(self.names)
+
+
+def leaf(i, names, lens):
+    return V([0, i, [[n, l] for n, l in zip(names, lens)]], names, lens)
+
+
+def unary_adaptors(v, rng, fresh):
+    """every adaptor applied to v (well-formed applications only), with the resulting shape"""
+    D = v.D
+    out = []
+    for d in range(D):
+        n, L = v.names[d], v.lens[d]
+        if L >= 2:
+            out.append(("range", V([1, v.term, [0, 0, [[n, 1, MAXU]]]], v.names, v.lens[:d] + [L - 1] + v.lens[d + 1:])))
+            out.append(("range_strict", V([1, v.term, [0, 1, [[n, 0, L - 1]]]], v.names, v.lens[:d] + [L - 1] + v.lens[d + 1:])))
+            out.append(("mask", V([2, v.term, [0, 0, [[n, 0, 1]]]], v.names, v.lens[:d] + [L - 1] + v.lens[d + 1:])))
+            out.append(("mask_strict", V([2, v.term, [0, 1, [[n, L - 1, 1]]]], v.names, v.lens[:d] + [L - 1] + v.lens[d + 1:])))
+        out.append(("index", V([3, v.term, [[n, L - 1]]], v.names[:d] + v.names[d + 1:], v.lens[:d] + v.lens[d + 1:])))
+    if D:
+        out.append(("range_all", V([1, v.term, [1, 0, [[[0, MAXU]]] + [[]] * (D - 1)]], v.names, v.lens)))
+        out.append(("mask_all", V([2, v.term, [1, 0, [[]] * D]], v.names, v.lens)))
+        out.append(("index_all", V([3, v.term, [[n, 0] for n in v.names]], [], [])))
+        out.append(("rename", V([5, v.term, [fresh + 10 + d for d in range(D)]], [fresh + 10 + d for d in range(D)], v.lens)))
+        out.append(("reverse", V([6, v.term, list(v.names)], v.names, v.lens)))
+        out.append(("reverse1", V([6, v.term, [v.names[-1]]], v.names, v.lens)))
+        perm = list(range(D)); perm = perm[1:] + perm[:1]
+        out.append(("access", V([7, v.term, [v.names[p] for p in perm]], [v.names[p] for p in perm], [v.lens[p] for p in perm])))
+        out.append(("transpose", V([8, v.term, [v.names[p] for p in perm]], v.names, [v.lens[p] for p in perm])))
+        for d in range(D):
+            n = v.names[d]
+            out.append(("chain", V([10, [v.term, None], n, rng.randrange(2)], v.names, v.lens[:d] + [2 * v.lens[d]] + v.lens[d + 1:])))
+    # expansion at EVERY insertion position (the last one and 0-D sources included), one or two extras
+    if D + 1 <= 6:
+        for pos in range(D + 1):
+            out.append(("expand", V([4, v.term, [[pos, fresh]]], v.names[:pos] + [fresh] + v.names[pos:], v.lens[:pos] + [1] + v.lens[pos:])))
+    if D + 2 <= 6:
+        out.append(("expand2_end", V([4, v.term, [[D, fresh], [D, fresh + 1]]], v.names + [fresh, fresh + 1], v.lens + [1, 1])))
+        out.append(("expand2_ends", V([4, v.term, [[0, fresh], [D, fresh + 1]]], [fresh] + v.names + [fresh + 1], [1] + v.lens + [1])))
+    if D + 1 <= 6:
+        for pos in range(D + 1):
+            out.append(("stack", V([9, [v.term, None], pos, fresh, rng.randrange(2)], v.names[:pos] + [fresh] + v.names[pos:], v.lens[:pos] + [2] + v.lens[pos:])))
+    for k in range(5):
+        out.append(("wrap%d" % k, V([11, v.term, k], v.names, v.lens)))
+    return out
+
+
+def close(term):
+    """fill the second source of a stack / chain with a copy of the first, then give every leaf
+    its own id (1, 2, ...) in term order"""
+    def fill(t):
+        if t[0] in (0, 12):
+            return list(t)
+        if t[0] in (9, 10):
+            first = fill(t[1][0])
+            return [t[0], [first] + [fill(t[1][0]) if x is None else fill(x) for x in t[1][1:]]] + t[2:]
+        return [t[0], fill(t[1])] + t[2:]
+    counter = [0]
+    def number(t):
+        if t[0] in (0, 12):
+            counter[0] += 1
+            return [t[0], counter[0]] + t[2:]
+        if t[0] in (9, 10):
+            return [t[0], [number(x) for x in t[1]]] + t[2:]
+        return [t[0], number(t[1])] + t[2:]
+    return number(fill(term))
+
+
+def boundary_probes(Dv, rng, budget):
+    if Dv == 0:
+        return [[]]
+    small = [list(p) for p in itertools.product(range(0, 4), repeat=Dv)]
+    if len(small) > budget // 2:
+        small = rng.sample(small, budget // 2)
+    out = small
+    for k in range(Dv):
+        for a in GEN_ALPHABET:
+            for base in ([0] * Dv, [rng.randrange(2) for _ in range(Dv)]):
+                idx = list(base); idx[k] = a
+                out.append(idx)
+    out.append([MAXU] * Dv)
+    out.append([2 ** 63] * Dv)
+    return out
+
+
+def adaptor_cases(quick, rng):
+    leaves = [leaf(1, [], []), leaf(1, [0], [3]), leaf(1, [0, 1], [2, 3]), leaf(1, [1, 0], [3, 1]),
+              leaf(1, [0, 1, 2], [2, 2, 2]), V([12, 1, 2, 3, 0, 1], [0, 1], [2, 3])]
+    for lf in leaves:
+        yield sx([16, 12, lf.term, boundary_probes(lf.D, rng, 80)])
+        firsts = unary_adaptors(lf, rng, 7)
+        for _, v1 in firsts:
+            yield sx([16, 12, close(v1.term), boundary_probes(v1.D, rng, 80)])
+        # depth 2: every adaptor over every adaptor (sampled in the quick tier)
+        for _, v1 in firsts:
+            if min(v1.lens, default=1) < 1:
+                continue
+            seconds = unary_adaptors(v1, rng, 20)
+            if quick:
+                seconds = rng.sample(seconds, min(len(seconds), 4))
+                # an expansion at the LAST position / of a 0-D view is always kept
+                seconds += [x for x in unary_adaptors(v1, rng, 20) if x[0] in ("expand2_end",)][:1]
+            for _, v2 in seconds:
+                if v2.D <= 6:
+                    yield sx([16, 12, close(v2.term), boundary_probes(v2.D, rng, 40)])
+    # chains / stacks of 2, 3 and 4 sources (array and tuple forms) whose sources have DIFFERENT
+    # lengths along the chained dimension: every index of the chained dimension, 0 .. total + 1,
+    # and the huge values, through the shared and the mutable checked getter
+    for D, along in ((1, 0), (2, 0), (2, 1), (3, 1)):
+        for n_src in (2, 3, 4):
+            for order in ("up", "down", "mixed"):
+                ks = {"up": [1, 2, 3, 4], "down": [4, 3, 2, 1], "mixed": [2, 1, 3, 2]}[order][:n_src]
+                srcs = []
+                for i, k in enumerate(ks):
+                    lens = [2] * D
+                    lens[along] = k
+                    srcs.append(leaf(i + 1, list(range(D)), lens).term)
+                total = sum(ks)
+                probes = []
+                for c in list(range(0, total + 2)) + [2 ** 63, MAXU - 1, MAXU]:
+                    for others in itertools.product((0, 1, 2), repeat=D - 1):
+                        idx = list(others); idx.insert(along, c)
+                        probes.append(idx)
+                for kind in (0, 1):
+                    yield sx([16, 12, [10, srcs, along, kind], probes])
+                    yield sx([16, 12, [7, [10, srcs, along, kind], list(range(D))[::-1]],
+                              [p[::-1] for p in probes]])
+            if D + 1 <= 4:
+                same = [leaf(i + 1, list(range(D)), [2] * D).term for i in range(n_src)]
+                for pos in range(D + 1):
+                    probes = []
+                    for c in list(range(0, n_src + 2)) + [2 ** 63, MAXU]:
+                        for others in itertools.product((0, 1, 2), repeat=D):
+                            idx = list(others); idx.insert(pos, c)
+                            probes.append(idx)
+                    for kind in (0, 1):
+                        yield sx([16, 12, [9, same, pos, 7, kind], probes])
+    # malformed receivers: the constructor's failure value (or documented panic), never a crash
+    t = leaves[2]
+    for bad in ([7, t.term, [0, 9]], [7, t.term, [0, 0]], [8, t.term, [9, 1]], [3, t.term, [[0, 2]]],
+                [3, t.term, [[9, 0]]], [4, t.term, [[3, 7]]], [4, t.term, [[0, 0]]], [5, t.term, [5, 5]],
+                [1, t.term, [0, 1, [[0, 1, MAXU]]]], [2, t.term, [0, 0, [[0, 0, MAXU]]]],
+                [1, t.term, [0, 0, [[0, MAXU, MAXU]]]], [6, t.term, [9]]):
+        yield sx([16, 12, bad, [[0, 0]]])
+
+
+def collection_cases(quick, rng):
+    """op 13: from_iter / from_iters over mixed-history streams (constants then variables,
+    variables then constants, two lists), every tag sequence up to length 4, with matching and
+    non-matching shapes"""
+    seqs = [list(t) for n in range(0, 5) for t in itertools.product((0, 1, 2), repeat=n)]
+    for t in seqs:
+        n = len(t)
+        for kind, shapes in ((0, ([[0, n]], [[0, max(n, 1)]], [[0, n + 1]])), (1, ([[0, 1], [1, n]], [[0, 2], [1, 2]]))):
+            for sh in shapes:
+                if kind == 0 and len(sh) == 2 and not isinstance(sh[0], list):
+                    sh = [sh]
+                shape = sh if isinstance(sh[0], list) else [sh]
+                yield sx([16, 13, kind, shape, [t]])
+    # N = 2, 3: one stream fails, the others must be decided on their own
+    for n in (1, 2, 3, 4):
+        all_t = [list(t) for t in itertools.product((0, 1, 2), repeat=n)]
+        for _ in range(150 if quick else 1500):
+            N = rng.choice((2, 3))
+            streams = [rng.choice(all_t) for _ in range(N)]
+            yield sx([16, 13, 0, [[0, n]], streams])
+            yield sx([16, 13, 1, [[0, 1], [1, n]], streams])
+            if n == 4:
+                yield sx([16, 13, 0, [[3, 2], [5, 2]], streams])
+                yield sx([16, 13, 1, [[0, 2], [1, 2]], streams])
+    # degenerate sizes with the history checks still decided first
+    for t in ([0, 1], [1, 1], [1, 0], [2, 1, 1], [0, 0, 1]):
+        for shape in ([[0, 0]], [[0, MAXU]], [[0, 2 ** 63], [1, 2]], [[0, 2], [0, 1]]):
+            yield sx([16, 13, 0, shape, [t]])
+        for rc in ((0, 0), (MAXU, 2), (2 ** 63, 2), (MAXU, MAXU)):
+            yield sx([16, 13, 1, [[0, rc[0]], [1, rc[1]]], [t]])
+
+
 def gen(tier, rng):
     quick = tier == "quick"
+    for c in adaptor_cases(quick, rng):
+        yield c
+    for c in collection_cases(quick, rng):
+        yield c
     # 1. Tensor::try_from with huge lengths
     for D in range(0, 4):
         for lens in itertools.product([0, 1, 2, 3, 2 ** 32, 2 ** 63, 2 ** 63 + 1, MAXU], repeat=D):
